@@ -36,6 +36,8 @@ def generate(rng, tier):
         lo = 0x10000 * rng.range(1, 0xfff)
         s.mem("S", [(lo + 8 * i, rng.choice([0, lo + 8 * rng.below(0x100), rng.u64(), base + 0x1000 + rng.below(0x400)])) for i in range(0x100)])
         s.mem("E", [])
+        s.mem("T", [(a, rng.choice([0, base + 0x1000 + rng.below(0x400), M64 - 8 * rng.below(64), rng.u64()])) for a in range(M64 - 0x1fff, M64, 8)] +
+                   [(M64 - 6, 0x1234), (M64 - 1, 0x5678), (M64, 0x9abc)])
         pts = [(f, b) for f in prog["funcs"] for b in petruth.boundaries(f)]
         for _ in range(120 if tier == "quick" else 300):
             f, (kreg, off, phase, idx) = rng.choice(pts)
@@ -51,11 +53,34 @@ def generate(rng, tier):
             if phase not in ("epilog", "prolog") and not (tier != "quick" and rng.chance(1, 4)):
                 continue
             rva = f.regions[kreg].begin + off
-            for v in (M64, M64 - 8, M64 - 0x40, M64 - 0x1000, (1 << 63) - 8):
+            for v in (M64, M64 - 7, M64 - 8, M64 - 0x40, M64 - 0x1000, (1 << 63) - 8):
                 for mode in ("ip", "ra"):
                     addr = base + rva + (1 if mode == "ra" else 0)
-                    s.add("unwind U C %s %s %s %s" % (mode, hx(addr), petruth.script_regs(addr, [v] * 16), "E" if v != M64 - 0x1000 else "S"),
-                          tag="pe-top:%s:%s:%s" % (f.shape, phase, mode))
+                    # E: nothing readable; T: the top page of the address space is readable (the word at 2^64-8 included)
+                    for memid in ("E", "T"):
+                        s.add("unwind U C %s %s %s %s" % (mode, hx(addr), petruth.script_regs(addr, [v] * 16), memid),
+                              tag="pe-top:%s:%s:%s:%s" % (f.shape, phase, mode, memid))
+        # minimal but valid unwind infos (one or two codes each): every kind of step on its own, so that the last
+        # addition of the step - popping the return address - is reached with the registers still at the top
+        mini = {0: dict(fpreg=5, fpoff=0, ops=[(3, ("setfp",))], chain=None, prolog=3),
+                1: dict(fpreg=3, fpoff=16, ops=[(4, ("setfp",)), (1, ("pop", 3))], chain=None, prolog=4),
+                2: dict(fpreg=None, fpoff=0, ops=[(4, ("alloc", 8))], chain=None, prolog=4),
+                3: dict(fpreg=None, fpoff=0, ops=[(1, ("mach", False))], chain=None, prolog=1),
+                4: dict(fpreg=None, fpoff=0, ops=[(1, ("mach", True))], chain=None, prolog=1),
+                5: dict(fpreg=None, fpoff=0, ops=[(5, ("save", 12, 0))], chain=None, prolog=5),
+                6: dict(fpreg=None, fpoff=0, ops=[(1, ("pop", 5))], chain=None, prolog=1),
+                7: dict(fpreg=None, fpoff=0, ops=[], chain=None, prolog=0)}
+        mbase = 0x7ff700000000
+        module_pe(s, "MX", mbase, mbase + 0x100000, mbase, 0x140000000, [(0x1000 + 0x40 * i, 0x1040 + 0x40 * i, i) for i in range(8)],
+                  mini, 0x1000, bytes([0x90]) * 0x200)
+        s.add("add U MX")
+        for i in range(8):
+            for v in (M64, M64 - 7, M64 - 8, M64 - 16, M64 - 24, M64 - 32, M64 - 40):
+                for mode in ("ip", "ra"):
+                    addr = mbase + 0x1000 + 0x40 * i + 0x20 + (1 if mode == "ra" else 0)
+                    for memid in ("E", "T"):
+                        s.add("unwind U C %s %s %s %s" % (mode, hx(addr), petruth.script_regs(addr, [v] * 16), memid),
+                              tag="pe-mini:%d:%s:%s" % (i, mode, memid))
         out.append(("pe-valid-%d" % w, s))
     # valid Mach-O modules (programs of C02's generator), every instruction boundary, boundary-value registers
     import machotruth as mt
